@@ -2116,6 +2116,7 @@ int bufr_estimate_seq_length( BUFR_Sequence *seq, BUFR_Tables *tbls )
    int       last_desc=0, last_nbits=0;
    int       f, x, y;
    int       rep_desc=0, rep_cnt=0;
+   int       pending_factor=0, pending_x=0, unexp_body=0;
    char      errmsg[1024];
 
    nbits = 0;
@@ -2126,6 +2127,26 @@ int bufr_estimate_seq_length( BUFR_Sequence *seq, BUFR_Tables *tbls )
       f = DESC_TO_F( cb->descriptor );
       x = DESC_TO_X( cb->descriptor );
       y = DESC_TO_Y( cb->descriptor );
+/*
+ * the body of a delayed replication that is not expanded yet may be replicated zero times:
+ * only its class 31 factor is certain to be in the message
+ */
+      if (pending_factor)
+         {
+         pending_factor = 0;
+         unexp_body = pending_x;
+         }
+      else if (unexp_body > 0)
+         {
+         unexp_body -= 1;
+         node = node->next;
+         continue;
+         }
+      if ((f == 1)&&(y == 0)&&!(cb->flags & (FLAG_EXPANDED|FLAG_SKIPPED)))
+         {
+         pending_factor = 1;
+         pending_x = x;
+         }
 #if DEBUG
       sprintf ( errmsg, "Desc=%d   flag=%d rep_desc=%d rep_cnt=%d\n", 
                   cb->descriptor , cb->flags, rep_desc, rep_cnt );
